@@ -25,7 +25,8 @@ RULE = ("group A (schedules): op {map, imap, collect, icollect} x files 1..4 "
         "error_to_warning {F,T} x pool type; group C (options): {map, imap} x "
         "3 files x 2 workers x selection {start/end, files=, files= reversed, "
         "bundled files=} x function {identity, returns None, raises on file "
-        "i} x return_info x on_content/pass_info; group D (align): primaries "
+        "i} x return_info x on_content/pass_info, plus a raising function "
+        "under error_to_warning (alone / next to an unreadable file); group D (align): primaries "
         "<=2(3), secondaries <=3, every match relation in which each primary "
         "has >=1 secondary, both loaders on controlled pools, every single "
         "unreadable file with skip_errors. For each configuration ALL "
@@ -163,6 +164,18 @@ def configs(tier):
                                              func=func, bad=bad,
                                              return_info=ri, on_content=oc,
                                              pass_info=pi)))
+    # an exception of the mapped function is not a read error: it has to
+    # reach the caller under error_to_warning too (alone, and next to a file
+    # that really is unreadable)
+    for op in ("map", "imap"):
+        for bad in (0, 1, 2):
+            for oc, pi in [(False, False), (True, False), (True, True)]:
+                for fail in ((), ((bad + 1) % 3,)):
+                    if fail and not oc:
+                        continue         # nothing is read
+                    out.append(("C", cfg(op, 3, 2, "thread", func="raise",
+                                         bad=bad, e2w=True, fail=fail,
+                                         on_content=oc, pass_info=pi)))
     return out
 
 
